@@ -102,10 +102,19 @@ def run(prop, tier, seed, workdir):
     rnd = random.Random(seed)
     maxn = 3 if tier == "quick" else 4
     cfg = os.path.join(workdir, "ts.cfg")
-    tlc.write_cfg(cfg, constants=dict(MaxN=maxn, Bytes=BYTES, Algs={"bcmp", "memcmp"}), invariants=["Correct", "DataIndependent"])
+    tlc.write_cfg(cfg, constants=dict(MaxN=3, Bytes=BYTES, Algs={"bcmp", "memcmp"}), invariants=["Correct", "DataIndependent"])
     r = tlc.model_check("TimingSafe", cfg, workdir, workers=16, dump=True, heap="12g")
     if r["violated"] or not r["ok"]:
         raise tlc.TLCError("TimingSafe.tla: the specified algorithm violates %s\n%s" % (r["violated"], r["out"][-1500:]))
+    if maxn > 3:
+        # the larger scope is model-checked only (11M states); its final states are not replayed (the dump would be several GB)
+        cfg4 = os.path.join(workdir, "ts4.cfg")
+        tlc.write_cfg(cfg4, constants=dict(MaxN=maxn, Bytes=BYTES, Algs={"bcmp", "memcmp"}), invariants=["Correct", "DataIndependent"])
+        r4 = tlc.model_check("TimingSafe", cfg4, workdir, workers=16, heap="16g", timeout=7200)
+        if r4["violated"] or not r4["ok"]:
+            raise tlc.TLCError("TimingSafe.tla (MaxN=%d): the specified algorithm violates %s\n%s" % (maxn, r4["violated"], r4["out"][-1500:]))
+        r["distinct"] += r4["distinct"]
+        r["states"] += r4["states"]
     finals = [s for s in tlc.parse_dump(r["dump_path"], var="m") if s.get("pc") == "ret"]
     os.unlink(r["dump_path"])
     cfg2 = os.path.join(workdir, "ts_leaky.cfg")
@@ -199,7 +208,7 @@ def run(prop, tier, seed, workdir):
         states=r["distinct"], transitions=r["states"], traces_validated_against_impl=len(events) + len(obs), evaluations=n1 + n2,
         distinct_nontrivial=len({(fn, tuple(a), tuple(b)) for fn, a, b in cases if a != b}),
         rule="TimingSafe.tla: TLC runs the specified accumulate-over-all-bytes algorithms on every pair of contents over {00,01,7F,80,FF} for n <= %d and checks Correct "
-             "and DataIndependent (obs = Shape(n)); the early-exit variant is shown to violate DataIndependent.  Results: every final model state (%d) plus all "
+             "and DataIndependent (obs = Shape(n)); the early-exit variant is shown to violate DataIndependent.  Results: every final model state for n <= 3 (%d) plus all "
              "256x256 byte pairs at the first difference (random equal prefix / random suffix) and seeded long regions (n to 1000) through both functions in three "
              "builds (-O2, -O0, -O3), operands flush against inaccessible pages.  Data independence of the compiled code: per build, function and n in %s: memcheck with both regions "
              "undefined (no conditional jump or address may depend on them) and the lackey instruction/address trace of the function, which must be identical for %d different "
